@@ -190,7 +190,9 @@ CLAIMED["C08"] = (
 ADDENDA = {
     "C01": "Also tied: the evaluation of a loaded archive itself (SerializedArchiveContext in the broker) and insights._run on generated serialized archives written by the real "
            "Hydration.dehydrate, with values in the caller's broker, in the archive or both — held to the attempt oracle (at most once, never before a declared dependency attempted "
-           "in the same evaluation, given values neither recomputed nor replaced).",
+           "in the same evaluation, given values neither recomputed nor replaced). The loaded-archive branch of dr.run is in the model (archivePrune / runArchive, KeyError included): "
+           "archive_dep_pruned (the dependencies of a component that has a value are no keys afterwards) and runArchive_once_after_deps (at most once, seeds kept, attempts within the given graph, "
+           "no dependency of a loaded component attempted) are proved, and the pruned key list and the whole evaluation are compared with dr.run on every generated loaded-archive evaluation.",
     "C02": "Also tied: 'default off, named components on' configurations (apply_default_enabled(False) followed by set_enabled(c, True)).",
     "C03": "Also tied: one exception OBJECT met by several parsers of one input (a provider's cached failure): a record is demanded for every raiser.",
     "C06": "Also tied: the providers built when a serialized archive is loaded again (initialize_broker / Hydration.hydrate -> the six deserializers -> SerializedOutputProvider / "
